@@ -174,6 +174,12 @@ GLOBAL_RULES = [
     ('std_isnan', re.compile(r'\bstd::isnan\s*\('), r'__builtin_isnan('),
     ('std_ints', re.compile(r'\bstd::((?:u?int(?:_fast|_least)?(?:8|16|32|64)_t)|size_t)\b'), r'\1'),
     ('nullptr', re.compile(r'\bnullptr\b'), r'NULL'),
+    ('delete_array', re.compile(r'\bdelete\s*\[\s*\]\s*([^;]+);'), r'CM_DELETE_ARRAY(\1);'),
+    ('delete', re.compile(r'\bdelete\s+([^;\[]+);'), r'CM_DELETE(\1);'),
+    ('new_array', re.compile(r'\bnew\s+([\w:]+(?:\s*<[^<>;]*>)?(?:\s*\*)*)\s*\[([^\]]+)\]'), r'CM_NEW_ARRAY(\1, \2)'),
+    ('coordinatevector_type', re.compile(r'\bCoordinateVector\s*<\s*(\w+)\s*>'), r'struct cm_cv_\1'),
+    ('coordinatevector_default_type', re.compile(r'\bCoordinateVector\s*<\s*>'), r'struct cm_cv_double'),
+    ('coordinatevector_xyz', re.compile(r'\.\s*([xyz])\s*\(\s*\)'), lambda m: '.c[%d]' % 'xyz'.index(m.group(1))),
     ('restart_write', re.compile(r'(?:\(\*restart_writer\)|\brestart_writer)\s*\.\s*write\s*\('), r'CM_TAPE_WRITE('),
     ('restart_read', re.compile(r'(?:\(\*restart_reader\)|\brestart_reader)\s*\.\s*read\s*<\s*([^<>]+?)\s*>\s*\(\s*\)'), r'CM_TAPE_READ(\1)'),
     ('functional_cast', re.compile(r'(?<![\w>.])(double|float|int|unsigned int|uint_fast32_t|int_fast32_t|uint_fast64_t|uint64_t|uint32_t|int32_t|size_t|uint_fast8_t|int_fast8_t|uint_least8_t|int_least8_t|uint_fast16_t|int_fast16_t|bool|char)\s*\((?!\s*\))(?=[^;{}]*\))'), None),
@@ -217,6 +223,35 @@ def _replace_calls(body, name, fn, report, key):
     return ''.join(out)
 
 
+def _replace_new(body, report):
+    """new T(args) -> CM_NEW_T(args)   (T_new is provided by the unit: extracted ctor or stand-in)"""
+    out = []
+    pos = 0
+    count = 0
+    pat = re.compile(r'\bnew\s+([A-Za-z_]\w*)\s*\(')
+    while True:
+        m = pat.search(body, pos)
+        if not m:
+            break
+        lp = m.end() - 1
+        rp = match_bracket(body, lp)
+        out.append(body[pos:m.start()])
+        out.append('CM_NEW_%s(%s)' % (m.group(1), body[lp + 1:rp]))
+        pos = rp + 1
+        count += 1
+    out.append(body[pos:])
+    if count:
+        report['rules']['new_T(args)->CM_NEW_T(args)'] = report['rules'].get('new_T(args)->CM_NEW_T(args)', 0) + count
+    return ''.join(out)
+
+
+def lower_types(text):
+    text = re.sub(r'\bstd::', '', text)
+    text = re.sub(r'\bCoordinateVector\s*<\s*(\w+)\s*>', r'struct cm_cv_\1', text)
+    text = re.sub(r'\bCoordinateVector\s*<\s*>', r'struct cm_cv_double', text)
+    return text
+
+
 def apply_global_rules(body, report, promote_asserts=False, relfile='', base_line=0):
     rules = report['rules']
     # error / warning / assert macros
@@ -233,6 +268,7 @@ def apply_global_rules(body, report, promote_asserts=False, relfile='', base_lin
             body = _replace_calls(body, nm, asrt, report, nm + '->promoted')
         else:
             body = _replace_calls(body, nm, lambda a: '', report, nm + '->dropped(compiled out in pinned build)')
+    body = _replace_new(body, report)
     for name, pat, rep in GLOBAL_RULES:
         if name == 'functional_cast':
             # T(expr) -> ((T)(expr)); only when preceded by an operator/paren/comma/'='/return
@@ -302,7 +338,10 @@ def find_definitions(src, name, cls=None, kind='method'):
             pat = re.compile(r'\b' + re.escape(cls) + r'::' + re.escape(name) + r'\s*\(')
         else:
             pat = re.compile(r'(?<![\w:~.>])' + re.escape(name) + r'\s*\(')
+        skip_until = -1
         for m in pat.finditer(text, lo, hi):
+            if m.start() < skip_until:
+                continue  # inside a definition already recorded (e.g. a delegating ctor call)
             if not qualified and in_class:
                 # must be at class depth 1: count braces between lo and m.start()
                 seg = text[lo:m.start()]
@@ -358,6 +397,7 @@ def find_definitions(src, name, cls=None, kind='method'):
             head = re.sub(r'#[^\n]*', ' ', head)
             found.append(dict(start=b, name_off=s, lp=lp, rp=rp, body_lb=k, body_rb=be,
                               head=head, params=text[lp + 1:rp], init=init))
+            skip_until = be
 
     if in_class:
         scan(lo, hi, False)
@@ -708,7 +748,7 @@ class Extractor:
             if m['name'] in skip:
                 continue
             ty = m['type']
-            ty = re.sub(r'\bstd::', '', ty)
+            ty = lower_types(ty)
             ty = re.sub(r'^const\s+', '', ty)  # const data members are set by the ctor-initialiser
             ty = typemap.get(ty, ty)
             if '<' in ty or '::' in ty:
@@ -855,7 +895,7 @@ class Extractor:
             head = d['head']
             head = re.sub(r'\b(inline|static|virtual|explicit|friend)\b', ' ', head)
             head = re.sub(r'\b%s::' % re.escape(a.get('class', '\0')), '', head)
-            head = re.sub(r'\bstd::', '', head)
+            head = lower_types(head)
             ret = re.sub(r'\s+', ' ', head).strip()
             if kind in ('ctor', 'dtor'):
                 ret = 'void'
@@ -867,7 +907,7 @@ class Extractor:
                 ret = ret[:-1].strip() + ' *'
                 rep['rules']['reference_return->pointer'] = 1
             params, refs = lower_params(d['params'], rep)
-            params = re.sub(r'\bstd::', '', params)
+            params = lower_types(params)
             if a.get('self') == '1':
                 sname = a.get('struct', a['class'])
                 params = ('struct %s *self' % sname) + (', ' + params if params else '')
